@@ -15,9 +15,15 @@ Mirrors, as they are in the tree:
   variant `fix` = the candidate repair of D10);
 * `dic/lexicon/word_infos.rs` — `get_word_info` (synonym flag, dictionary-form consult) and the
   accessor fall-backs of `WordInfo`;
-* `dic/lexicon_set.rs`  — `get_word_info_subset` (POS / split fix-ups of user dictionaries);
+* `dic/lexicon_set.rs`  — `get_word_info_subset`: `fixPos` (POS re-basing of user dictionaries) and
+  `fixSplits` (the dictionary-id fix-up `update_dict_id` of SPLIT_A / SPLIT_B / WORD_STRUCTURE, each
+  under the `contains` of its own single flag), for any number of user dictionaries;
 * `analysis/stateful_tokenizer.rs` — `set_mode`, `set_subset`, `resolve_best_path` (word infos of
-  the best path), `stateless_tokenizer.rs: split_path`, `node.rs: NodeSplitIterator::next`.
+  the best path), `stateless_tokenizer.rs: split_path`, `node.rs: NodeSplitIterator::next` as it is
+  after the repair of D6 (unit end clamped to the node end and moved back to a character start:
+  `snap` = `to_curr_byte_idx ∘ ch_idx`, recomputed from the UTF-8 bytes of the rewritten text).
+  The lattice search itself is not modelled: it has no access to the subset and reads word
+  parameters only; its best path is an input of `tokenize`.
 
 Bytes are `Nat`s (< 256 on the wire), strings are lists of Unicode scalar values, word ids are the
 raw `u32`.  `Res` keeps the three outcomes of the Rust code apart: value, `Err`, panic.
@@ -352,6 +358,27 @@ def widNew (dic word : Nat) : Nat := ((dic &&& 0xf) <<< 28) ||| (word &&& 0x0fff
 def updateDictId (split : List Nat) (dictId : Nat) : List Nat :=
   split.map (fun id => if widDic id > 0 then widNew dictId (widWord id) else id)
 
+/-- the POS fix-up of `get_word_info_subset`: only under `subset.contains(POS_ID)`; a POS id of a
+user dictionary at or above `num_system_pos` is re-based by the dictionary's offset (`as u16`);
+`self.pos_offsets[dict_id]` is an indexing panic when the table is too short -/
+def fixPos (ls : LexSet) (dictId subset : Nat) (wi : WordInfoData) : Res WordInfoData :=
+  if subset.testBit POS_ID then
+    let posId := wi.posId
+    if dictId > 0 ∧ posId ≥ ls.numSystemPos then
+      match ls.posOffsets[dictId]? with
+      | none => .panic
+      | some off => .ok { wi with posId := (posId - ls.numSystemPos + off) % 65536 }
+    else .ok wi
+  else .ok wi
+
+/-- the three dictionary-id fix-ups of `get_word_info_subset`, each under the `contains` of ITS OWN
+single flag (`subset.contains(SPLIT_A)`, `…(SPLIT_B)`, `…(WORD_STRUCTURE)`) -/
+def fixSplits (dictId subset : Nat) (wi : WordInfoData) : WordInfoData :=
+  let wi := if subset.testBit SPLIT_A then { wi with aUnitSplit := updateDictId wi.aUnitSplit dictId } else wi
+  let wi := if subset.testBit SPLIT_B then { wi with bUnitSplit := updateDictId wi.bUnitSplit dictId } else wi
+  let wi := if subset.testBit WORD_STRUCTURE then { wi with wordStructure := updateDictId wi.wordStructure dictId } else wi
+  wi
+
 def getWordInfoSubset (ls : LexSet) (id : Nat) (subset : Nat) : Res WordInfoData :=
   let dictId := widDic id
   match ls.lexicons[dictId]? with
@@ -359,21 +386,8 @@ def getWordInfoSubset (ls : LexSet) (id : Nat) (subset : Nat) : Res WordInfoData
   | some lex =>
     match getWordInfo lex (widWord id) subset with
     | .ok wi =>
-      let wi1 : Res WordInfoData :=
-        if subset.testBit POS_ID then
-          let posId := wi.posId
-          if dictId > 0 ∧ posId ≥ ls.numSystemPos then
-            match ls.posOffsets[dictId]? with
-            | none => .panic
-            | some off => .ok { wi with posId := (posId - ls.numSystemPos + off) % 65536 }
-          else .ok wi
-        else .ok wi
-      match wi1 with
-      | .ok wi =>
-        let wi := if subset.testBit SPLIT_A then { wi with aUnitSplit := updateDictId wi.aUnitSplit dictId } else wi
-        let wi := if subset.testBit SPLIT_B then { wi with bUnitSplit := updateDictId wi.bUnitSplit dictId } else wi
-        let wi := if subset.testBit WORD_STRUCTURE then { wi with wordStructure := updateDictId wi.wordStructure dictId } else wi
-        .ok wi
+      match fixPos ls dictId subset wi with
+      | .ok wi => .ok (fixSplits dictId subset wi)
       | .err => .err
       | .panic => .panic
     | .err => .err
@@ -456,41 +470,67 @@ def resolvePath (ls : LexSet) (subset : Nat) : List PNode → Res (List RNode)
     | .err => .err
     | .panic => .panic
 
-/-- `NodeSplitIterator::next`, iterated; `textLen` = length of `mod_b2c` - 1 (`ch_idx` indexes it).
+/-- a UTF-8 continuation byte (`10xxxxxx`): not the first byte of a character -/
+def isCont (b : Nat) : Bool := b &&& 0xC0 == 0x80
+
+/-- start of the character that contains byte `i`, scanning the text from byte `j` on (`last` = the
+last character start seen so far) -/
+def snapGo : Bytes → Nat → Nat → Nat → Nat
+  | [], _, last, _ => last
+  | b :: r, j, last, i => if j > i then last else snapGo r (j + 1) (if isCont b then last else j) i
+
+/-- `text.to_curr_byte_idx(text.ch_idx(i))` on the rewritten text: `mod_b2c` has `len + 1` entries
+(an index above `len` is an indexing panic), entry `len` is the sentinel (number of characters, whose
+`mod_c2b` is `len`), entry `i < len` is the character containing byte `i`, whose `mod_c2b` is its
+first byte.  The tables are recomputed here from the UTF-8 bytes of the text. -/
+def snap (text : Bytes) (i : Nat) : Res Nat :=
+  if i > text.length then .panic
+  else if i = text.length then .ok i
+  else .ok (snapGo text 0 0 i)
+
+/-- `node.num_splits(mode)` / the list `ResultNode::split` iterates: the ONLY word-info field of a
+path node that decides where `split_path` cuts -/
+def splitsOf (mode : Mode) (info : WordInfoData) : List Nat :=
+  match mode with
+  | .A => info.aUnitSplit
+  | .B => info.bUnitSplit
+  | .C => []
+
+/-- `NodeSplitIterator::next`, iterated (the tree after the repair of D6): the last unit takes the
+node's end; any other unit ends at `min(byte_start + head_word_length, node end)` moved back to the
+first byte of the character it falls into (`ch_idx` then `to_curr_byte_idx`), `as u16`.
 `get_word_info_subset(..).unwrap()`: an `Err` is a panic here. -/
-def splitGo (ls : LexSet) (subset : Nat) (textLen : Nat) (byteEnd : Nat) : List Nat → Nat → Res (List RNode)
+def splitGo (ls : LexSet) (subset : Nat) (text : Bytes) (byteEnd : Nat) : List Nat → Nat → Res (List RNode)
   | [], _ => .ok []
   | wordId :: rest, byteStart =>
     match getWordInfoSubset ls wordId subset with
     | .ok wi =>
       if rest.isEmpty then .ok [⟨wordId, byteStart, byteEnd, wi⟩]
       else
-        let be := byteStart + wi.headWordLength
-        if be > textLen then .panic             -- `self.text.ch_idx(byte_end)`
-        else
+        let be := min (byteStart + wi.headWordLength) byteEnd
+        match snap text be with
+        | .ok be =>
           let be16 := be % 65536
-          match splitGo ls subset textLen byteEnd rest be16 with
+          match splitGo ls subset text byteEnd rest be16 with
           | .ok rs => .ok (⟨wordId, byteStart, be16, wi⟩ :: rs)
           | .err => .err
           | .panic => .panic
+        | .err => .err
+        | .panic => .panic
     | .err => .panic
     | .panic => .panic
 
 /-- `split_path` -/
-def splitPath (ls : LexSet) (mode : Mode) (subset : Nat) (textLen : Nat) : List RNode → Res (List RNode)
+def splitPath (ls : LexSet) (mode : Mode) (subset : Nat) (text : Bytes) : List RNode → Res (List RNode)
   | [] => .ok []
   | n :: ns =>
-    let splits : List Nat :=
-      match mode with
-      | .A => n.info.aUnitSplit
-      | .B => n.info.bUnitSplit
-      | .C => []
+    let splits : List Nat := splitsOf mode n.info
     let head : Res (List RNode) :=
       if mode = .C ∨ splits.length ≤ 1 then .ok [n]
-      else splitGo ls subset textLen n.be splits n.bb
+      else splitGo ls subset text n.be splits n.bb
     match head with
     | .ok h =>
-      match splitPath ls mode subset textLen ns with
+      match splitPath ls mode subset text ns with
       | .ok t => .ok (h ++ t)
       | .err => .err
       | .panic => .panic
@@ -498,9 +538,9 @@ def splitPath (ls : LexSet) (mode : Mode) (subset : Nat) (textLen : Nat) : List 
     | .panic => .panic
 
 /-- word infos + split of `do_tokenize` for a configuration without path-rewrite plugins -/
-def tokenize (ls : LexSet) (st : TokState) (textLen : Nat) (path : List PNode) : Res (List RNode) :=
+def tokenize (ls : LexSet) (st : TokState) (text : Bytes) (path : List PNode) : Res (List RNode) :=
   match resolvePath ls st.subset path with
-  | .ok rs => splitPath ls st.mode st.subset textLen rs
+  | .ok rs => splitPath ls st.mode st.subset text rs
   | .err => .err
   | .panic => .panic
 
@@ -599,7 +639,7 @@ def handleTok (toks : List (List Char)) : String :=
       | some path =>
         let st := applyOps v (newTok m0) ops
         let pre := "mode=" ++ showMode st.mode ++ " sub=" ++ toString st.subset
-        match tokenize ls st text.length path with
+        match tokenize ls st text path with
         | .ok rs => "ok " ++ pre ++ " morphs=" ++ Wire.joinWith ";" (rs.map showRNode)
         | .err => "err " ++ pre
         | .panic => "PANIC " ++ pre
